@@ -137,7 +137,8 @@ class Engine:
     def run_real(self, sc, args, explicit=(), packed=False, pack_refs=False, bare=False, extra_args=None, keep=False):
         self.n += 1
         d = os.path.join(self.scratch, "repo%d" % self.n)
-        grafts = packed == "info/grafts"
+        grafts = packed in ("info/grafts", "GIT_GRAFT_FILE")
+        graft_env = packed == "GIT_GRAFT_FILE"
         if grafts:
             packed = False
         store = packed if packed in ("GIT_OBJECT_DIRECTORY", "GIT_ALTERNATE_OBJECT_DIRECTORIES", "objects/info/alternates") else None
@@ -150,7 +151,7 @@ class Engine:
             commits = [i for i, o in enumerate(sc.objects) if o["kind"] == "commit"]
             if len(commits) >= 2:
                 os.makedirs(os.path.join(gitdir, "info"), exist_ok=True)
-                with open(os.path.join(gitdir, "info", "grafts"), "w") as f:
+                with open(d + ".grafts" if graft_env else os.path.join(gitdir, "info", "grafts"), "w") as f:
                     f.write(" ".join([sc.oids[commits[-1]].hex()] + [sc.oids[c].hex() for c in commits[:-1]]) + "\n")
                     f.write(sc.oids[commits[-2]].hex() + "\n")
         if store:
@@ -167,7 +168,8 @@ class Engine:
             shutil.rmtree(os.path.join(gitdir, "objects"))
             shutil.move(objs, os.path.join(gitdir, "objects"))      # back in place for the caller's own questions to git
             return rc, out, err, d, gitdir
-        rc, out, err = S.run_sizer(self.bins["sizer"], d, cli)
+        # (the same grafts in a file that the CALLER's environment names: ignored as well)
+        rc, out, err = S.run_sizer(self.bins["sizer"], d, cli, env=S.clean_env({"GIT_GRAFT_FILE": d + ".grafts"}) if graft_env and os.path.exists(d + ".grafts") else None)
         if not keep:
             # the caller may still need the repository to ask git for its enumeration
             pass
